@@ -46,9 +46,9 @@ func checkC13(c *Ctx) {
 	extra := []string{RepoMod + "/internal/frontend/token"}
 	var jobs []Job
 	type shape struct{ t1, l, t2 int }
-	shapes := []shape{{0, 1, 1}, {0, 2, 1}, {0, 3, 2}, {1, 1, 1}, {1, 2, 1}, {1, 4, 1}, {2, 2, 2}}
+	shapes := []shape{{0, 1, 1}, {0, 3, 2}, {1, 2, 1}, {1, 4, 1}, {0, 5, 1}, {2, 2, 2}}
 	if !c.Quick() {
-		shapes = append(shapes, shape{0, 5, 2}, shape{1, 5, 2}, shape{2, 4, 2}, shape{2, 6, 1})
+		shapes = append(shapes, shape{0, 2, 1}, shape{1, 1, 1}, shape{0, 5, 2}, shape{1, 5, 2}, shape{2, 4, 2}, shape{1, 6, 1}, shape{0, 7, 1})
 	}
 	for _, s := range shapes {
 		jobs = append(jobs, Job{
